@@ -23,11 +23,21 @@ _PID = None
 
 def _apply(sources, edits):
     out = dict(sources)
-    for path, old, new in edits:
+    for e in edits:
+        path, old, new = e[0], e[1], e[2]
+        nth = e[3] if len(e) > 3 else None
         text = out.get(path)
-        if text is None or text.count(old) != 1:
+        if text is None:
             return None
-        out[path] = text.replace(old, new)
+        if nth is None:
+            if text.count(old) != 1:
+                return None
+            out[path] = text.replace(old, new)
+        else:
+            parts = text.split(old)
+            if len(parts) - 1 <= nth:
+                return None
+            out[path] = old.join(parts[:nth + 1]) + new + old.join(parts[nth + 1:])
     return out
 
 
